@@ -1,7 +1,224 @@
+/-
+  C14 — luqum.thread.parse is thread-safe: on the abstract machine of Luqum.Model.Threads, under
+  every schedule each thread's outcome is the outcome of a sequential parse of its own input.
+  (Partial by nature: byte-code atomicity / the GIL and PLY's code outside the audited attribute
+  accesses are not in the model; see DESIGN.md.)
+-/
 import Luqum.Model.Threads
+import Luqum.Lemmas.ParseTotal
+
 namespace Luqum.Props.C14
 open Luqum
+
 /-- a finished parse stays finished -/
 theorem pstep_done (T : Tables) (p : PState) (r) (h : p.result = some r) : pstep T p = p := by
   unfold pstep; rw [h]
+
+theorem piter_done (T : Tables) (n : Nat) (p : PState) (r) (h : p.result = some r) : piter T n p = p := by
+  induction n generalizing p with
+  | zero => rfl
+  | succ n ih => simp only [piter]; rw [pstep_done T p r h]; exact ih p h
+
+/-- one atomic step from an unfinished state whose look-ahead is available (or whose lexer reported
+no error): dispatch on the parser step -/
+theorem pstep_step (T : Tables) (c : Cfg) (toks : List Tok) (lerr : Option LexErr)
+    (hne : ∀ e, toks = [] → lerr = some e → False) :
+    pstep T { cfg := c, toks := toks, lerr := lerr } =
+      match step T c toks.head? with
+      | .shift c' => { cfg := c', toks := toks.tail, lerr := lerr }
+      | .reduce c' => { cfg := c', toks := toks, lerr := lerr }
+      | .accept v => { cfg := c, toks := toks, lerr := lerr, result := some (.ok v) }
+      | .error e => { cfg := c, toks := toks, lerr := lerr, result := some (.error e) } := by
+  unfold pstep
+  simp only
+  generalize step T c toks.head? = r
+  rcases toks with _ | ⟨t, rest⟩
+  · cases lerr with
+    | some e => exact absurd rfl (fun h => hne e rfl h)
+    | none => cases r <;> rfl
+  · cases r <;> rfl
+
+/-- iterating the atomic step is PLY's loop: when the loop has enough fuel, `fuel` steps finish with
+exactly its outcome -/
+theorem piter_runLoop (T : Tables) : ∀ (fuel : Nat) (c : Cfg) (toks : List Tok) (lerr : Option LexErr),
+    runLoop T fuel c toks lerr ≠ .error (.internal "out of fuel") →
+    (piter T fuel { cfg := c, toks := toks, lerr := lerr }).result = some (runLoop T fuel c toks lerr)
+  | 0, c, toks, lerr, h => by simp [runLoop] at h
+  | fuel + 1, c, toks, lerr, h => by
+    unfold runLoop at h ⊢
+    simp only [piter]
+    split at h
+    · -- lexer error with no token left
+      rename_i e
+      have : pstep T { cfg := c, toks := [], lerr := some e } =
+          { cfg := c, toks := [], lerr := some e, result := some (.error (.illegalChar e.pos e.rest)) } := by
+        simp [pstep]
+      rw [this, piter_done T fuel _ _ rfl]
+    · rename_i hne
+      rw [pstep_step T c toks lerr hne]
+      split at h <;> rename_i hs <;> simp only [hs]
+      · exact piter_runLoop T fuel _ _ _ h
+      · exact piter_runLoop T fuel _ _ _ h
+      · rw [piter_done T fuel _ _ rfl]
+      · rw [piter_done T fuel _ _ rfl]
+
+/-- count of the occurrences of thread `i` in a schedule -/
+def turns (i : Nat) (sched : List Nat) : Nat := sched.count i
+
+/-- **frame property**: whatever the schedule, the state of thread `i` depends only on how many
+turns it got, never on what the other threads did -/
+theorem piter_succ' (T : Tables) (n : Nat) (p : PState) : piter T (n + 1) p = piter T n (pstep T p) := rfl
+
+theorem run_thread (T : Tables) (sched : List Nat) (w : World) (i : Nat) :
+    (w.run T sched).threads[i]? = (w.threads[i]?).map (piter T (turns i sched)) := by
+  induction sched generalizing w with
+  | nil => simp [World.run, turns, piter]
+  | cons j rest ih =>
+    have := ih (w.stepThread T j)
+    simp only [World.run, List.foldl_cons] at this ⊢
+    rw [this]
+    simp only [World.stepThread, turns, List.count_cons]
+    by_cases hji : j = i
+    · subst hji
+      rw [List.getElem?_modify_eq]
+      cases w.threads[j]? with
+      | none => rfl
+      | some p => simp [piter]
+    · have hb : (j == i) = false := by simpa using hji
+      simp only [hb, Bool.false_eq_true, if_false, Nat.add_zero]
+      rw [List.getElem?_modify_ne _ _ hji]
+
+/-- C14 on the abstract machine, assuming the fuel of the sequential loop suffices (it always does:
+`thread_safe` below) -/
+theorem thread_safe_of_fuel (inputs : List Str) (sched : List Nat) (i : Nat) (s : Str)
+    (hi : inputs[i]? = some s)
+    (hfair : parseFuel (lex s).1.length ≤ turns i sched)
+    (hfuel : runLoop tables (parseFuel (lex s).1.length) { states := [0], vals := [] } (lex s).1 (lex s).2
+              ≠ .error (.internal "out of fuel")) :
+    ∃ p, ((World.init inputs).run tables sched).threads[i]? = some p ∧
+      p.result = some (runLoop tables (parseFuel (lex s).1.length) { states := [0], vals := [] } (lex s).1 (lex s).2) := by
+  rw [run_thread]
+  have hget : (World.init inputs).threads[i]? = some (pinit s) := by
+    simp [World.init, List.getElem?_map, hi]
+  rw [hget]
+  refine ⟨_, rfl, ?_⟩
+  obtain ⟨k, hk⟩ := Nat.exists_eq_add_of_le hfair
+  have h1 := piter_runLoop tables _ _ _ _ hfuel
+  have split_iter : ∀ (a b : Nat) (p : PState), piter tables (a + b) p = piter tables b (piter tables a p) := by
+    intro a b p
+    induction a generalizing p with
+    | zero => simp [piter]
+    | succ a ih => simp only [Nat.succ_add, piter]; exact ih _
+  rw [hk, split_iter]
+  unfold pinit
+  simp only
+  rw [piter_done tables k _ _ h1]
+  exact h1
+
+/-- and before it has finished a thread has simply no outcome yet: under any schedule the
+outcome of thread `i`, once present, is the sequential one (no schedule can make it differ) -/
+theorem outcome_unique (inputs : List Str) (sched : List Nat) (i : Nat) (s : Str) (p : PState) (r)
+    (hi : inputs[i]? = some s)
+    (hp : ((World.init inputs).run tables sched).threads[i]? = some p) (hr : p.result = some r)
+    (n : Nat) (hn : turns i sched ≤ n) :
+    (piter tables n (pinit s)).result = some r := by
+  rw [run_thread] at hp
+  have hget : (World.init inputs).threads[i]? = some (pinit s) := by
+    simp [World.init, List.getElem?_map, hi]
+  rw [hget] at hp
+  simp only [Option.map_some, Option.some.injEq] at hp
+  obtain ⟨k, hk⟩ := Nat.exists_eq_add_of_le hn
+  have split_iter : ∀ (a b : Nat) (q : PState), piter tables (a + b) q = piter tables b (piter tables a q) := by
+    intro a b q
+    induction a generalizing q with
+    | zero => simp [piter]
+    | succ a ih => simp only [Nat.succ_add, piter]; exact ih _
+  rw [hk, split_iter, hp, piter_done tables k p r hr]
+  exact hr
+
+
+/-- the sequential outcome of `thread.parse(s)` / `parser.parse(s)`, as a stack value -/
+def seqOutcome (s : Str) : Except ParseErr Val :=
+  runLoop tables (parseFuel (lex s).1.length) { states := [0], vals := [] } (lex s).1 (lex s).2
+
+/-- what `parse` returns for an outcome of the loop -/
+def finish : Except ParseErr Val → Except ParseErr Tree
+  | .ok (.item t) => .ok t
+  | .ok (.tok ..) => .error (.internal "token value as result")
+  | .error e => .error e
+
+theorem parse_eq_finish (s : Str) : parse s = finish (seqOutcome s) := by
+  unfold parse parseWith seqOutcome finish
+  rfl
+
+/-- **C14 on the abstract machine** (unconditional, by fuel sufficiency `runLoop_fuel_ok`): for all
+inputs and every schedule in which thread `i` gets at least `parseFuel` turns, its outcome is
+exactly the outcome of the sequential loop on its own input -/
+theorem thread_safe (inputs : List Str) (sched : List Nat) (i : Nat) (s : Str)
+    (hi : inputs[i]? = some s)
+    (hfair : parseFuel (lex s).1.length ≤ turns i sched) :
+    ∃ p, ((World.init inputs).run tables sched).threads[i]? = some p ∧
+      p.result = some (seqOutcome s) :=
+  thread_safe_of_fuel inputs sched i s hi hfair (runLoop_fuel_ok _ _)
+
+/-- ... i.e. what the thread returns is `parse s` -/
+theorem thread_safe_parse (inputs : List Str) (sched : List Nat) (i : Nat) (s : Str)
+    (hi : inputs[i]? = some s)
+    (hfair : parseFuel (lex s).1.length ≤ turns i sched) :
+    ∃ p, ((World.init inputs).run tables sched).threads[i]? = some p ∧
+      p.result.map finish = some (parse s) := by
+  obtain ⟨p, hp, hr⟩ := thread_safe inputs sched i s hi hfair
+  exact ⟨p, hp, by rw [hr, parse_eq_finish]; rfl⟩
+
+/-- under ANY schedule (fair or not), an outcome that is present is the sequential one -/
+theorem outcome_is_sequential (inputs : List Str) (sched : List Nat) (i : Nat) (s : Str) (p : PState) (r)
+    (hi : inputs[i]? = some s)
+    (hp : ((World.init inputs).run tables sched).threads[i]? = some p) (hr : p.result = some r) :
+    r = seqOutcome s ∧ finish r = parse s := by
+  have h1 := outcome_unique inputs sched i s p r hi hp hr
+    (turns i sched + parseFuel (lex s).1.length) (Nat.le_add_right _ _)
+  have h2 := piter_runLoop tables _ _ _ _ (runLoop_fuel_ok (lex s).1 (lex s).2)
+  have split_iter : ∀ (a b : Nat) (q : PState), piter tables (a + b) q = piter tables b (piter tables a q) := by
+    intro a b q
+    induction a generalizing q with
+    | zero => simp [piter]
+    | succ a ih => simp only [Nat.succ_add, piter]; exact ih _
+  rw [Nat.add_comm, split_iter] at h1
+  have h3 : (pinit s) = { cfg := { states := [0], vals := [] }, toks := (lex s).1, lerr := (lex s).2 } := rfl
+  rw [h3, piter_done tables _ _ _ h2, h2] at h1
+  have : r = seqOutcome s := by
+    simp only [Option.some.injEq] at h1
+    exact h1.symm
+  exact ⟨this, by rw [this, parse_eq_finish]⟩
+
+/-- and no thread ever reports a model-internal error -/
+theorem outcome_never_internal (inputs : List Str) (sched : List Nat) (i : Nat) (s : Str) (p : PState) (r)
+    (hi : inputs[i]? = some s)
+    (hp : ((World.init inputs).run tables sched).threads[i]? = some p) (hr : p.result = some r)
+    (m : String) : finish r ≠ .error (.internal m) := by
+  rw [(outcome_is_sequential inputs sched i s p r hi hp hr).2]
+  exact parse_never_internal s m
+
+/-- the `shared` cell (the per-parse attributes written on the shared `LRParser` object) is never
+read by a step: two worlds that differ only there run identically on every thread -/
+theorem shared_irrelevant (sched : List Nat) (w : World) (x : Option Nat) :
+    ({ w with shared := x }.run tables sched).threads = (w.run tables sched).threads := by
+  induction sched generalizing w x with
+  | nil => rfl
+  | cons j rest ih =>
+    simp only [World.run, List.foldl_cons] at ih ⊢
+    exact ih (w.stepThread tables j) (some j)
+
+/-- non-vacuity: three threads, an adversarial round-robin schedule -/
+example :
+    let inputs := ["a AND b".toList, "(x".toList, "f:[1 TO 2]^3".toList]
+    let sched := (List.range 300).map (· % 3)
+    ((World.init inputs).run tables sched).threads.map (fun p => p.result.isSome) = [true, true, true] := by
+  decide +kernel
+
+/-- non-vacuity of the fairness hypothesis: "a AND b" has 3 tokens, `parseFuel 3 = 72`, and a
+round-robin schedule of 3 × 72 turns gives every thread its 72 turns -/
+example : parseFuel (lex "a AND b".toList).1.length = 72 := by decide +kernel
+example : turns 0 ((List.range 216).map (· % 3)) = 72 := by decide +kernel
+
 end Luqum.Props.C14
